@@ -419,9 +419,15 @@ class Model:
                                 delay_state, ",".join(str(i + 1) for i in ind)
                             )
 
+                            # A duration is either shared by all elements
+                            # or given per element (loop-dependent durations)
+                            duration = delay_argument.duration
+                            if isinstance(duration, ca.MX) and duration.numel() > 1:
+                                duration = duration[ind]
+
                             self.delay_states.append(new_name)
                             self.delay_arguments.append(
-                                DelayArgument(delay_argument.expr[ind], delay_argument.duration)
+                                DelayArgument(delay_argument.expr[ind], duration)
                             )
 
                     # Replace variable in list of outputs if needed
